@@ -658,7 +658,8 @@ def results_cases(draw):
     obs = []
     for i in range(n_obs):
         times = sorted(set(draw(st.lists(st.sampled_from([0.0, 0.1, 0.25, 0.5, 1 / 3, 1.0]), min_size=1, max_size=4))))
-        kind = draw(st.sampled_from(["float", "list", "matrix", "counter", "int", "str", "none", "array", "nested"]))
+        kind = draw(st.sampled_from(["float", "list", "matrix", "counter", "int", "str", "none", "array", "nested",
+                                     "complex", "complex_list"]))
         obs.append(dict(tag=f"obs{i}_" + kind, times=times, kind=kind))
     return dict(atoms=draw(st.sampled_from([["q0"], ["q0", "q1"], ["a", "b", "c"]])),
                 duration=draw(st.sampled_from([0, 100, 1234])), obs=obs)
@@ -678,7 +679,9 @@ def check_results(case, ctx: Ctx):
             v = {"float": 0.5 * j - 0.1, "list": [0.1 * j, 1.0], "matrix": [[1.0, j], [j, 0.0]],
                  "counter": collections.Counter({"01": 3 + j, "10": 1}), "int": j, "str": f"s{j}",
                  "none": None, "array": np.array([1.0, 2.5 * j]),
-                 "nested": {"a": [1, 2], "b": {"c": 0.5}}}[o["kind"]]
+                 "nested": {"a": [1, 2], "b": {"c": 0.5}},
+                 # (what Expectation / Fidelity store for a non-Hermitian operator or a complex overlap)
+                 "complex": complex(0.5 * j, -1.25), "complex_list": [1 + 2j, complex(j, 0.5)]}[o["kind"]]
             res._store_raw(uuid=u, tag=o["tag"], time=t, value=v)
     ctx.nontrivial(len(case["obs"]) >= 2)
     doc = ctx.must(lambda: res.to_abstract_repr(), C, "to_abstract_repr")
@@ -695,6 +698,15 @@ def check_results(case, ctx: Ctx):
         y = json.loads(json.dumps(getattr(back, o["tag"]), default=_cj))
         if x != y:
             ctx.fail(C, f"values:{o['kind']}", f"{x} -> {y}")
+        if o["kind"].startswith("complex"):
+            # numbers come back as numbers (usable in arithmetic), not as their JSON form
+            for a_, b_ in zip(getattr(res, o["tag"]), getattr(back, o["tag"])):
+                try:
+                    same = np.allclose(np.asarray(a_, dtype=complex), np.asarray(b_, dtype=complex))
+                except (TypeError, ValueError):
+                    same = False
+                if not same:
+                    ctx.fail(C, "values:complex_not_restored", f"stored {a_!r}, decoded {b_!r}")
         for t in o["times"]:
             ctx.must(lambda: back.get_result(o["tag"], t), C, "get_result")
     doc2 = ctx.must(lambda: back.to_abstract_repr(), C, "re-encode")
